@@ -35,7 +35,7 @@ LEVEL_TEXT = (
     "{simulated_annealing_opts, slicing_opts, slicing_reconf_opts, "
     "reconf_opts} x 2 sampling libraries. Pool: for 18 configurations (6 of them with early termination by "
     "max_time under a virtual clock) every "
-    "one of the 600 (quick) / 3000 (thorough) completion orders of the "
+    "one of the 3000 completion orders of the "
     "trials is executed through the library's own future-polling code. In "
     "every run: tree complete and of the query, best == min(scores) and "
     "finite, trial count <= max_repeats, recorded costs of the winner and "
@@ -120,7 +120,7 @@ def units(tier, seed):
             for mz in MINIMIZE:
                 us.append(("serial", net, ms, mz, None, tier, seed))
     # pool configurations
-    reps = 6 if tier == "quick" else 7
+    reps = 7  # (3000 completion orders per configuration; 20 s: both tiers)
     pool_cfgs = []
     for net in NETS:
         for ms in ("greedy+random", "greedy+failing"):
